@@ -106,12 +106,22 @@ func CalculateMultipliedPriceToTick(multipliedPrice math.LegacyDec, tickParams T
 	tickIndex = 0
 	if multipliedPrice.GT(multipliedOffsetPrice) {
 		for multipliedPrice.GT(multipliedOffsetPrice) {
-			multipliedPrice = multipliedPrice.Quo(priceRatio)
+			next := multipliedPrice.Quo(priceRatio)
+			// the search has no gas meter: a step that does not move the price would never terminate
+			if !next.LT(multipliedPrice) {
+				return 0, ErrPriceOutOfBound
+			}
+			multipliedPrice = next
 			tickIndex++
 		}
 	} else {
 		for multipliedPrice.LT(multipliedOffsetPrice) {
-			multipliedPrice = multipliedPrice.Mul(priceRatio)
+			next := multipliedPrice.Mul(priceRatio)
+			// at tiny prices the product rounds back to the same value: stop instead of looping forever
+			if !next.GT(multipliedPrice) {
+				return 0, ErrPriceOutOfBound
+			}
+			multipliedPrice = next
 			tickIndex--
 		}
 	}
